@@ -634,6 +634,8 @@ LAW(L_extrema_sum, RC, 8000, 250000, 140, "a 0/1 dimension or non-square matrix,
   bool integer = genInteger(c);
   int emax = c.flag() ? 9 : 1;
   Op A = genOp(c, genDim(c), genDim(c), integer, emax);
+  // extreme magnitudes: every entry far below / above any finite sentinel an implementation might start its search from
+  if (!integer && c.oneIn(5)) { double sh = c.pick({-1e25, 1e25, -1e300, 1e300, -1.7e308}), sc = c.pick({1e20, 1e280, 1.0}); if (std::abs(sh) > 1e307) sc = 1e290; for (double& x : A.m.v) x = sh + sc * x; }
   bool abstractCall = c.flag();
   c.desc << "extrema/sum " << (abstractCall ? "(abstract) " : "") << show(A);
   bool empty = A.m.v.empty();
@@ -655,7 +657,7 @@ LAW(L_extrema_sum, RC, 8000, 250000, 140, "a 0/1 dimension or non-square matrix,
       CHECK(vmin == mn, "min() = " << num(vmin) << ", the minimum is " << num(mn));
     }
     if (integer) CHECK(sum == static_cast<double>(s), "sumElements = " << num(sum) << ", the definition gives " << num(static_cast<double>(s)));
-    else { long double tol = 4.0L * static_cast<long double>(A.m.v.size() + 1) * DBL_EPSILON * sm; CHECK(fabsl(sum - s) <= tol, "sumElements = " << vf::dec(sum) << ", the definition gives " << vf::dec(static_cast<double>(s))); if (tol > 0) c.observe("err/tol sumElements", static_cast<double>(fabsl(sum - s) / tol)); }
+    else if (sm < 1e307L) { long double tol = 4.0L * static_cast<long double>(A.m.v.size() + 1) * DBL_EPSILON * sm; CHECK(fabsl(sum - s) <= tol, "sumElements = " << vf::dec(sum) << ", the definition gives " << vf::dec(static_cast<double>(s))); if (tol > 0) c.observe("err/tol sumElements", static_cast<double>(fabsl(sum - s) / tol)); }
     CHECK(sameRM(snap(*a), A.m), "input modified");
   }
 }
